@@ -98,6 +98,44 @@ impl Tree {
     }
 }
 
+/// A tree of any height up to 64 in which only a few leaves are set (all others hold `default`): root and
+/// authentication nodes are computed from the set leaves and the hashes of all-default subtrees, without
+/// materialising the tree.  Same node order as `Tree::witness`.
+pub struct SparseTree {
+    pub height: u32,
+    pub root: Felt,
+    pub auths: Vec<Felt>,
+}
+impl SparseTree {
+    pub fn open(v: Variant, height: u32, n_friendly: u64, default: Felt, leaves: &std::collections::BTreeMap<u128, Felt>) -> SparseTree {
+        // dflt[d] = hash of an all-default subtree whose root sits at depth d
+        let mut dflt = vec![Felt::ZERO; height as usize + 1];
+        dflt[height as usize] = default;
+        for d in (1..=height as usize).rev() {
+            dflt[d - 1] = node_hash(v, &dflt[d], &dflt[d], d as u64, n_friendly);
+        }
+        let mut cur: std::collections::BTreeMap<u128, Felt> = leaves.clone();
+        let mut auths = Vec::new();
+        for d in (1..=height as usize).rev() {
+            let mut next = std::collections::BTreeMap::new();
+            for (&i, h) in cur.iter() {
+                let sib = i ^ 1;
+                let sh = match cur.get(&sib) {
+                    Some(x) => *x,
+                    None => {
+                        auths.push(dflt[d]);
+                        dflt[d]
+                    }
+                };
+                let (l, r) = if i & 1 == 0 { (*h, sh) } else { (sh, *h) };
+                next.entry(i / 2).or_insert_with(|| node_hash(v, &l, &r, d as u64, n_friendly));
+            }
+            cur = next;
+        }
+        SparseTree { height, root: cur.get(&0).cloned().unwrap_or(dflt[0]), auths }
+    }
+}
+
 /// Montgomery form used by the table commitment: v * 2^256 mod p, in integer arithmetic.
 pub fn mont(v: &Felt) -> Felt {
     b2f(&(f2b(v) << 256))
